@@ -227,6 +227,7 @@ class BlockNode(Node):
         ctx = context.copy(
             token=self.token,
             namespace={"block": block_drop},
+            disabled_tags=context.disabled_tags,
             carry_loop_iterations=True,
             block_scope=True,
         )
@@ -284,6 +285,7 @@ class BlockNode(Node):
         ctx = context.copy(
             token=self.token,
             namespace={"block": block_drop},
+            disabled_tags=context.disabled_tags,
             carry_loop_iterations=True,
             block_scope=True,
         )
